@@ -275,6 +275,10 @@ class AstToSqlVisitor(visitor.NodeVisitor):
 
     def visit_Call(self, node: ast.Call) -> str:
         ":meta private:"
+        if node.func.namespace:
+            # E.g. `geo.length` is not the string function `length`:
+            raise exceptions.UnsupportedFunctionException(node.func.full_name())
+
         try:
             # Grammar has already validated that the function is valid OData,
             # but that doesn't guarantee we can represent it in SQL:
